@@ -40,6 +40,8 @@ THEOREMS = [
     "MCHap.C18.trio_allele_exact",
     "MCHap.C18.ped_gibbs_scaled",
     "MCHap.C18.ped_gibbs_is_conditional",
+    "MCHap.C18.joint_code_eq_spec",
+    "MCHap.C18.ped_gibbs_is_conditional_joint",
     "MCHap.C18.trio_allele_balanced_old",
     "MCHap.C18.ped_gibbs_old_weights_balanced",
     "MCHap.C18.gibbs_old_weights_counterexample",
@@ -240,8 +242,8 @@ def run(tier, replay=None):
         "the current state has positive joint probability (states the sampler can be in)",
         "irreducibility / convergence is not claimed; the theorems are detailed balance and conditional exactness",
         "prob_accept of the swap is observed on .py_func (same source as the jitted function) with np.random forced",
-        "the Gibbs theorem is stated for the model's own joint (trio function trioPmfCode, the model of trio_log_pmf); its identity with the "
-        "specification-level sum over all gamete pairs (C17.trio_sum_one) is not a theorem but compared exactly by the driver on every case",
+        "the joint of the model (trio function trioPmfCode) is the joint of the C17 specification (joint_code_eq_spec, via "
+        "C17.trioCode_eq_spec) for well-formed trios (TrioWF)",
         "well-formedness hypotheses of ped_gibbs_is_conditional (parent genotypes of the right ploidy over the known alleles, tau <= ploidy, "
         "lambda in [0,1] and non-zero only for tau = 2, no individual its own parent) hold for every pedigree mchap accepts",
     ])
